@@ -7,6 +7,7 @@ From AV Require Import Lib.Base Gen.Consts.
 From AV Require Import Files.PathBuf Files.PathBufSpec Files.PathBufProofs.
 From AV Require Import Files.Range Files.Named Files.ChunkedRead Files.RangeProofs.
 From AV Require Import Files.Service Files.ServiceProofs.
+From AV Require Import Gen.FilesTables Files.TablesTie.
 
 (* ---------------------------------------------------------------- (1) no traversal ------------- *)
 
@@ -257,3 +258,82 @@ Example C16_example_body :
   (* the file was truncated to 5 bytes after open: UnexpectedEof after the bytes that exist *)
   read_loop FILES_CHUNK_SIZE 5 Sync [(7%nat, 100); (7%nat, 100); (7%nat, 100)] 6 3 0 = Val [EChunk 3 2; EErr].
 Proof. vm_compute. repeat split. Qed.
+
+(* ---------------------------------------------------------------- (4) ties to the source literals - *)
+(* Gen/FilesTables.v is regenerated from the Rust sources on every check run (tools/gen/files.py).
+   Each theorem below compares the MODEL'S BEHAVIOUR with the generated literals on the whole finite
+   domain concerned (all 256 bytes, all 65536 two-byte segments): a literal changed in the source
+   breaks the theorem, a rule that disappears omits the definition and this file stops compiling. *)
+
+(* parse_path: separator; forbidden first characters (with and without hidden files); forbidden last
+   characters and the error each yields; the windows-only characters; ".", ".." and "" *)
+Theorem C16_tables_parse_path :
+  (SLASH = FILES_PP_SEP /\ FILES_PP_ENC_SEP_ERR = SLASH) /\
+  (forallb (fun b => Bool.eqb (is_bad_start (loop1 false true [b; 97])) (mem b FILES_PP_BAD_START)) bytes256 = true /\
+   forallb (fun b => Bool.eqb (is_bad_start (loop1 false false [b; 97]))
+                              (mem b FILES_PP_BAD_START || (b =? FILES_PP_HIDDEN_PREFIX))) bytes256 = true) /\
+  (forallb (fun b => Bool.eqb (is_bad_end (loop1 false true [97; b])) (mem b FILES_PP_BAD_END)) bytes256 = true /\
+   map (fun b => loop1 false true [97; b]) FILES_PP_BAD_END =
+     [Val (inl BadEndColon); Val (inl BadEndGt); Val (inl BadEndLt)]) /\
+  (forallb (fun b => Bool.eqb (is_bad_char (loop1 true true [97; b; 97])) (mem b FILES_PP_WIN_FORBIDDEN)) bytes256 = true /\
+   forallb (fun b => negb (is_bad_char (loop1 false true [97; b; 97]))) bytes256 = true /\
+   map (fun b => loop1 true true [97; b; 97]) FILES_PP_WIN_FORBIDDEN =
+     [Val (inl BadCharBackslash); Val (inl BadCharColon)]).
+Proof. exact (conj tie_sep (conj tie_bad_start (conj tie_bad_end tie_windows))). Qed.
+
+Theorem C16_tables_dot_segments :
+  loop1 false true FILES_PP_CURDIR = Val (inl BadStartDot) /\
+  seg_loop false true [[97]; FILES_PP_PARENT] [] 2 = Val (inr ([], 1)) /\
+  FILES_PP_EMPTY_SKIPPED = true /\ loop1 false true [] = Val (inr ([], 0)) /\
+  forallb (fun b => Bool.eqb (match loop1 false true [b] with Val (inl BadStartDot) => true | _ => false end)
+                             (bytes_eqb [b] FILES_PP_CURDIR)) bytes256 = true /\
+  forallb (fun b1 => forallb (fun b2 =>
+     Bool.eqb (popped (seg_loop false true [[97]; [b1; b2]] [] 2)) (bytes_eqb [b1; b2] FILES_PP_PARENT)) bytes256) bytes256 = true.
+Proof. exact tie_dots. Qed.
+
+(* http-range: prefix, its length, list and range separators, whitespace set; range.rs wraps it verbatim *)
+Theorem C16_tables_range :
+  PREFIX = FILES_RANGE_PREFIX /\ lenN PREFIX = FILES_RANGE_PREFIX_LEN /\
+  (forall h : bytes, skipn 6 h = skipn (N.to_nat FILES_RANGE_PREFIX_LEN) h) /\
+  COMMA = FILES_RANGE_LIST_SEP /\ DASH = FILES_RANGE_DASH /\
+  forallb (fun b => Bool.eqb (is_ws b) (mem b FILES_RANGE_WS)) bytes256 = true /\
+  FILES_RANGE_WRAPS_HTTP_RANGE = true.
+Proof. exact tie_range. Qed.
+
+(* named.rs: the status code of every exit of the decision, and the Content-Range texts as the
+   source's format strings applied to (offset, offset+length-1, file length) / (file length) *)
+Theorem C16_tables_status_and_content_range :
+  (forall c ranged length offset cr,
+     status (finish c ranged length offset cr) =
+       if precondition_failed c then FILES_ST_PRECONDITION
+       else if not_modified c then FILES_ST_NOT_MODIFIED
+       else if ranged then FILES_ST_PARTIAL else FILES_ST_OK) /\
+  (forall flen hv c, to_str_ok hv = false ->
+     into_response true flen (Some hv) c = Val (mkResp FILES_ST_BAD_VALUE None None)) /\
+  (forall c,
+     into_response true 10 (Some [98; 121; 116; 101; 115; 61; 50; 48; 45]) c
+       = Val (mkResp FILES_ST_UNSAT (Some (CRUnsat 10)) None) /\
+     FILES_ZERO_LENGTH_UNSAT = true /\
+     into_response true 0 (Some [98; 121; 116; 101; 115; 61; 45; 53]) c
+       = Val (mkResp FILES_ST_UNSAT (Some (CRUnsat 0)) None)) /\
+  (forall f l t, render_cr (CRBytes f l t) = fmt FILES_CR_RANGE_FMT [dec f; dec l; dec t]) /\
+  (forall t, render_cr (CRUnsat t) = fmt FILES_CR_UNSAT_FMT [dec t]).
+Proof.
+  split; [exact tie_status_finish|]. split; [exact tie_status_bad_value|].
+  split; [exact tie_status_unsat|]. exact tie_content_range_format.
+Qed.
+
+(* service.rs / chunked.rs: extension list, the directory guard of the pre-compressed lookup and the
+   sibling-name construction it protects, the read size and the offset/counter bookkeeping site *)
+Theorem C16_tables_service_and_reader :
+  (ext_of 0 = Some FILES_EXT_BR /\ ext_of 1 = Some FILES_EXT_GZ /\ ext_of 2 = Some FILES_EXT_ZST /\
+   forallb (fun e => match ext_of e with None => true | Some _ => e <? 3 end) bytes256 = true) /\
+  (FILES_COMPRESSED_SKIPS_DIRS = true /\ FILES_COMPRESSED_NAME_IS_SIBLING = true /\
+   forall (fs : list component -> fkind) (root : bytes) (neg : list N),
+     fs (components root) = KDir -> call fs true None root [] neg = Miss) /\
+  (FILES_READ_SIZE = FILES_CHUNK_SIZE /\
+   FILES_OFFSET_COUNTER_ADVANCE = true /\ FILES_COUNTER_ADVANCED_ONCE = true /\
+   forall mode, read_loop FILES_READ_SIZE 200000 mode (repeat (0%nat, u64_max) 4) 150000 1000 0 =
+     Val [EChunk 1000 FILES_READ_SIZE; EChunk (1000 + FILES_READ_SIZE) FILES_READ_SIZE;
+          EChunk (1000 + 2 * FILES_READ_SIZE) (150000 - 2 * FILES_READ_SIZE)]).
+Proof. exact (conj tie_extensions (conj tie_dir_guard tie_read)). Qed.
